@@ -3605,6 +3605,8 @@ class DecVar(Vars):
     def evtadapt(self, scens):
 
         if isinstance(scens, Scen):
+            if scens.ambset.model is not self.dro_model:
+                raise ValueError('Models mismatch.')
             # a Scen object holds scenario positions, not labels
             events = scens.series
             events = [events] if isinstance(events, Real) else list(events)
